@@ -10,9 +10,12 @@ from hippolyzer.lib.proxy.sessions import Session, SessionManager
 
 async def serve(app, flow: HippoHTTPFlow):
     """Serve a request based on a Hippolyzer HTTP flow using a provided app"""
-    await asgiapp.serve(app, flow.flow)
-    # Send the modified flow object back to mitmproxy
-    flow.resume()
+    try:
+        await asgiapp.serve(app, flow.flow)
+    finally:
+        # Send the modified flow object back to mitmproxy, also when serving failed or was
+        # cancelled (addon unload, session close.) A taken flow nobody resumes hangs forever.
+        flow.resume()
 
 
 class WebAppCapAddon(BaseAddon, abc.ABC):
